@@ -22,15 +22,15 @@ FLOORS = {"quick": {"subchannels": 500, "closes": 200, "writes_after_close": 100
 NAMES = ["p0", "p1", "ünï-proto", "x" * 40]
 
 _created = []
-_orig_init = sc_mod.SubChannel.__attrs_post_init__
+_orig_init = sc_mod.SubChannel.__init__          # (the attrs-generated constructor: there whatever else the class has)
 
 
-def _record_init(self):
-    _orig_init(self)
+def _record_init(self, *a, **kw):
+    _orig_init(self, *a, **kw)
     _created.append(self)
 
 
-sc_mod.SubChannel.__attrs_post_init__ = _record_init
+sc_mod.SubChannel.__init__ = _record_init
 
 
 def cases(tier, seed, prep=None):
